@@ -82,7 +82,8 @@ def run_property(prop, tier, seed):
                     # a stream borrowed from another property names the finding classes in that property's terms
                     pmodel = {k: (v[0], v[1], v[2], P.CLASS_NAMES.get(v[3], v[3])) if len(v) == 4 else v for k, v in pmodel.items()}
                 rep.count("process:" + label, len(pcases))
-                core.judge(rep, pcases, pimpl, pmodel, known, getattr(P, "nontrivial", None), project=getattr(P, "project", None))
+                core.judge(rep, pcases, pimpl, pmodel, known, getattr(P, "nontrivial", None), spec_mode=getattr(P, "SPEC_MODE", None),
+                           project=getattr(P, "project", None))
             log("process-level: %.0fs" % (time.time() - t3))
         if hasattr(P, "post"):
             P.post(rep)
